@@ -170,6 +170,15 @@ def generate(kind: str, r: random.Random, vmf: VMF) -> Any:
 
 # variants of making the copy, per kind: name -> (function(obj, other_vmf) -> copy, completeness is expected?)
 def copy_variants(kind: str) -> dict[str, tuple[Callable[[Any, VMF], Any], bool]]:
+    out = _copy_variants(kind)
+    # a class that defines its own __copy__ hook (not inherited) offers copy.copy(x) as a further way to copy the object
+    cls = {'Entity': Entity, 'Solid': Solid, 'Side': Side, 'VisGroup': VisGroup, 'EntityGroup': EntityGroup}.get(kind)
+    if cls is not None and '__copy__' in vars(cls) and 'copy.copy' not in out:
+        out['copy.copy'] = (lambda o, m: _copy.copy(o), True)
+    return out
+
+
+def _copy_variants(kind: str) -> dict[str, tuple[Callable[[Any, VMF], Any], bool]]:
     if kind in ('Entity', 'Solid'):
         return {
             'copy()': (lambda o, m: o.copy(), True),
